@@ -183,6 +183,23 @@ impl<'a> Pr<'a> {
         }
         self.sp()
     }
+    /// the blank between an expression and the keyword that follows it (THEN, TO, STEP, AND, MOD ...): optional when the
+    /// expression ends with a parenthesised expression (`IF (X)THEN`, `TO (9)STEP 4`, `IF X > (4)THEN`)
+    fn sp_after(&mut self, e: &Expr) -> String {
+        fn ends_with_paren(e: &Expr) -> bool {
+            match e {
+                Expr::Paren(_) => true,
+                Expr::Bin(_, _, r) => ends_with_paren(r),
+                Expr::Un(_, x) => ends_with_paren(x),
+                _ => false,
+            }
+        }
+        if self.lay.space_mode != 0 && ends_with_paren(e) && self.rnd(3) == 0 {
+            self.changed += 1;
+            return String::new();
+        }
+        self.sp()
+    }
     /// an optional blank (default one blank)
     fn osp(&mut self) -> String {
         if self.lay.space_mode == 0 {
@@ -267,7 +284,7 @@ impl<'a> Pr<'a> {
                 let r = self.expr(b);
                 if op.is_word() {
                     let k = self.kw(op.text());
-                    let s1 = self.sp();
+                    let s1 = self.sp_after(a);
                     let s2 = self.sp_before(&r);
                     format!("{}{}{}{}{}", l, s1, k, s2, r)
                 } else {
@@ -584,9 +601,9 @@ impl<'a> Pr<'a> {
             Stmt::If { arms, else_ } => {
                 for (k, (c, body)) in arms.iter().enumerate() {
                     let kw = if k == 0 { self.kw("IF") } else { self.kw("ELSEIF") };
+                    let s2 = self.sp_after(c);
                     let c = self.expr(c);
                     let s1 = self.sp_before(&c);
-                    let s2 = self.sp();
                     let t = self.kw("THEN");
                     let hp = if k == 0 { path.to_string() } else { format!("{}/arm{}", path, k) };
                     self.header(&hp, format!("{}{}{}{}{}", kw, s1, c, s2, t));
@@ -604,9 +621,9 @@ impl<'a> Pr<'a> {
             }
             Stmt::IfLine { cond, then_, else_ } => {
                 let a = self.kw("IF");
+                let s2 = self.sp_after(cond);
                 let c = self.expr(cond);
                 let s1 = self.sp_before(&c);
-                let s2 = self.sp();
                 let t = self.kw("THEN");
                 let s3 = self.sp();
                 let mut text = format!("{}{}{}{}{}{}", a, s1, c, s2, t, s3);
@@ -714,13 +731,13 @@ impl<'a> Pr<'a> {
                 t.push('=');
                 t.push_str(&self.sp());
                 t.push_str(&self.expr(from));
-                t.push_str(&self.sp());
+                t.push_str(&self.sp_after(from));
                 t.push_str(&self.kw("TO"));
                 let to_text = self.expr(to);
                 t.push_str(&self.sp_before(&to_text));
                 t.push_str(&to_text);
                 if let Some(s) = step {
-                    t.push_str(&self.sp());
+                    t.push_str(&self.sp_after(to));
                     t.push_str(&self.kw("STEP"));
                     let step_text = self.expr(s);
                     t.push_str(&self.sp_before(&step_text));
